@@ -1,6 +1,9 @@
 package harness
 
 import (
+	"github.com/quickfixgo/quickfix/verifsim/simsync"
+	"time"
+	"sync/atomic"
 	"verifsim/wire"
 	"strconv"
 	"bytes"
@@ -385,4 +388,112 @@ func c09ValidateWith(dd *datadictionary.DataDictionary, msgType string) {
 			quickfix.NewValidator(quickfix.ValidatorSettings{CheckFieldsOutOfOrder: true, RejectInvalidMessage: true, CheckFieldsHaveValues: true, CheckUserDefinedFields: true}, dd, dd).Validate(m)
 		}
 	}
+}
+
+// c09SharedMessageProbe reads one parsed message through the typed accessors from one task while other tasks
+// write to it (FieldMap carries a lock for exactly this use). The tasks run under the cooperative scheduler
+// with the codec's locks as scheduling points, the chooser decides who runs; like sync.RWMutex, a writer
+// that waits keeps new readers out. No accessor may hang (all tasks blocked = deadlock) or panic.
+func c09SharedMessageProbe(env *Env) {
+	ch := env.Ch
+	raw := wire.Encode("FIX.4.2", []wire.Field{wire.F(35, "D"), wire.F(49, "A"), wire.F(56, "B"), wire.FI(34, 7), wire.F(43, "Y"),
+		wire.F(52, "20000101-00:00:00.000"), wire.F(122, "20000101-00:00:00"), wire.F(11, "id"), wire.F(38, "100"), wire.F(60, "20000101-00:00:00"),
+		wire.F(78, "2"), wire.F(79, "a"), wire.F(80, "1"), wire.F(79, "b"), wire.F(80, "2")})
+	msg := quickfix.NewMessage()
+	if err := quickfix.ParseMessage(msg, bytes.NewBuffer(raw)); err != nil {
+		env.Fatalf("shared-message probe: %v", err)
+	}
+	other := quickfix.NewMessage()
+	reads := []func(fm *quickfix.FieldMap){
+		func(fm *quickfix.FieldMap) { fm.GetTime(52) },
+		func(fm *quickfix.FieldMap) { fm.GetTime(60) },
+		func(fm *quickfix.FieldMap) { fm.GetInt(34) },
+		func(fm *quickfix.FieldMap) { fm.GetString(49) },
+		func(fm *quickfix.FieldMap) { fm.GetBool(43) },
+		func(fm *quickfix.FieldMap) { fm.GetBytes(11) },
+		func(fm *quickfix.FieldMap) { fm.Has(38) },
+		func(fm *quickfix.FieldMap) { fm.Tags() },
+		func(fm *quickfix.FieldMap) {
+			var f quickfix.FIXFloat
+			fm.GetField(38, &f)
+		},
+		func(fm *quickfix.FieldMap) {
+			fm.GetGroup(quickfix.NewRepeatingGroup(78, quickfix.GroupTemplate{quickfix.GroupElement(79), quickfix.GroupElement(80)}))
+		},
+	}
+	writes := []func(fm *quickfix.FieldMap, i int){
+		func(fm *quickfix.FieldMap, i int) { fm.SetString(58, "t"+strconv.Itoa(i)) },
+		func(fm *quickfix.FieldMap, i int) { fm.SetInt(34, 8+i) },
+		func(fm *quickfix.FieldMap, i int) { fm.SetBool(43, i%2 == 0) },
+		func(fm *quickfix.FieldMap, i int) { fm.SetField(52, quickfix.FIXUTCTimestamp{Time: time.Unix(int64(i), 0)}) },
+		func(fm *quickfix.FieldMap, i int) { fm.Remove(11) },
+		func(fm *quickfix.FieldMap, i int) { fm.CopyInto(&other.Body.FieldMap) },
+	}
+	maps := []*quickfix.FieldMap{&msg.Header.FieldMap, &msg.Body.FieldMap}
+	type op struct {
+		write bool
+		k, fm int
+	}
+	nTasks := 2 + ch.Choose("sharedtasks", 2)
+	plans := make([][]op, nTasks)
+	for t := range plans {
+		for n := 1 + ch.Choose("sharedops", 4); n > 0; n-- {
+			o := op{write: t > 0 && ch.Chance("sharedwrite", 2, 3), fm: ch.Choose("sharedmap", 2)}
+			if o.write {
+				o.k = ch.Choose("sharedwriteop", len(writes))
+			} else {
+				o.k = ch.Choose("sharedreadop", len(reads))
+			}
+			plans[t] = append(plans[t], o)
+		}
+	}
+	sched := simsync.NewScheduler()
+	sched.CodecLocks = true
+	simsync.Install(sched)
+	defer simsync.Install(nil)
+	var running atomic.Int32
+	var panicked atomic.Value
+	for t := range plans {
+		running.Add(1)
+		name, plan := fmt.Sprintf("shared%d", t), plans[t]
+		go func() {
+			simsync.Register(name)
+			defer func() {
+				if r := recover(); r != nil {
+					panicked.Store(fmt.Sprintf("%s: %v", name, r))
+				}
+				simsync.Unregister()
+				running.Add(-1)
+			}()
+			simsync.Yield("shared:start")
+			for i, o := range plan {
+				if o.write {
+					writes[o.k](maps[o.fm], i)
+				} else {
+					reads[o.k](maps[o.fm])
+				}
+			}
+		}()
+	}
+	for step := 0; step < 4000; step++ {
+		env.Settle()
+		parked := sched.Parked()
+		if len(parked) == 0 {
+			if running.Load() > 0 {
+				var d []string
+				for _, o := range sched.AllParked() {
+					d = append(d, fmt.Sprintf("%s at %s (%s)", o.Name, o.Site, o.Kind))
+				}
+				env.Violate("C09/api-hang", "tasks sharing one message block each other for good: %v", d)
+			}
+			break
+		}
+		sched.Resume(parked[ch.Choose("sharedpick", len(parked))])
+	}
+	sched.Drain()
+	env.Settle()
+	if v := panicked.Load(); v != nil {
+		env.Violate("C09/api-panic", "accessor on a shared message panicked: %v", v)
+	}
+	env.Stat("probe_api_shared_message")
 }
